@@ -125,6 +125,16 @@ func findLineStart(haystack []byte, pos int) int {
 	return idx + 1 // Line starts after the \n
 }
 
+// nextLineStart returns the start of the line after the one containing pos.
+// Returns -1 if there is no further line (no '\n' at or after pos, or nothing follows it).
+func nextLineStart(haystack []byte, pos int) int {
+	idx := bytes.IndexByte(haystack[pos:], '\n')
+	if idx == -1 || pos+idx+1 >= len(haystack) {
+		return -1
+	}
+	return pos + idx + 1
+}
+
 // verifyPrefix checks if the prefix literal matches at the given position.
 // Returns true if prefix matches or if no prefix verification is needed.
 func (s *MultilineReverseSuffixSearcher) verifyPrefix(haystack []byte, at int) bool {
@@ -148,10 +158,12 @@ func (s *MultilineReverseSuffixSearcher) verifyPrefix(haystack []byte, at int) b
 //
 // Slow path (complex patterns):
 //  1. Same candidate finding
-//  2. Use forward DFA for verification
+//  2. Use forward DFA for verification (anchored at the line start)
+//  3. On failure, skip to next line (same line start = same DFA result)
 //
 // Performance: O(n) with very low constant factor for fast path.
-// Key optimization: when prefix fails, skip entire line - avoids O(n²) worst case.
+// Key optimization: each line is verified at most once. When the prefix check or
+// the DFA rejects a line, skip the entire line - avoids O(n²) worst case.
 func (s *MultilineReverseSuffixSearcher) Find(haystack []byte) *Match {
 	if len(haystack) == 0 {
 		return nil
@@ -173,16 +185,7 @@ func (s *MultilineReverseSuffixSearcher) Find(haystack []byte) *Match {
 		// A prefix hit is only a candidate: what lies between prefix and suffix
 		// (`^/.*\dphp`) and the greedy match end (LAST suffix on the line) still
 		// need the DFA below. A prefix miss rejects the whole line without DFA.
-		if len(s.prefixBytes) > 0 && !s.verifyPrefix(haystack, lineStart) {
-			// Prefix doesn't match at this line start.
-			// Optimization: skip to next line - all other candidates on this line
-			// will have the same lineStart and will also fail.
-			nextLine := bytes.IndexByte(haystack[suffixPos:], '\n')
-			if nextLine == -1 {
-				return nil // No more lines
-			}
-			pos = suffixPos + nextLine + 1
-		} else {
+		if len(s.prefixBytes) == 0 || s.verifyPrefix(haystack, lineStart) {
 			// Slow path: use DFA for complex pattern verification
 			fwdCache := s.fwdCachePool.Get().(*lazy.DFACache)
 			end := s.forwardDFA.SearchAtAnchored(fwdCache, haystack, lineStart)
@@ -190,12 +193,14 @@ func (s *MultilineReverseSuffixSearcher) Find(haystack []byte) *Match {
 			if end >= 0 {
 				return NewMatch(lineStart, end, haystack)
 			}
-			// Move past this suffix candidate
-			pos = suffixPos + 1
 		}
 
-		if pos >= len(haystack) {
-			return nil
+		// No match starts on this line. Verification depends only on lineStart,
+		// which is the same for every other candidate on this line, so they would
+		// all fail too: skip to the next line instead of re-verifying each one.
+		pos = nextLineStart(haystack, suffixPos)
+		if pos == -1 {
+			return nil // No more lines
 		}
 	}
 }
@@ -206,7 +211,8 @@ func (s *MultilineReverseSuffixSearcher) Find(haystack []byte) *Match {
 // Essential for FindAll iteration.
 //
 // Performance: O(n) with very low constant factor for fast path.
-// Key optimization: when prefix fails, skip entire line - avoids O(n²) worst case.
+// Key optimization: each line is verified at most once. When the prefix check or
+// the DFA rejects a line, skip the entire line - avoids O(n²) worst case.
 func (s *MultilineReverseSuffixSearcher) FindAt(haystack []byte, at int) *Match {
 	if at >= len(haystack) {
 		return nil
@@ -228,14 +234,7 @@ func (s *MultilineReverseSuffixSearcher) FindAt(haystack []byte, at int) *Match 
 		}
 
 		// Fast path: a prefix miss rejects the whole line; a hit is verified by the DFA
-		if len(s.prefixBytes) > 0 && !s.verifyPrefix(haystack, lineStart) {
-			// Prefix doesn't match - skip to next line
-			nextLine := bytes.IndexByte(haystack[suffixPos:], '\n')
-			if nextLine == -1 {
-				return nil // No more lines
-			}
-			pos = suffixPos + nextLine + 1
-		} else {
+		if len(s.prefixBytes) == 0 || s.verifyPrefix(haystack, lineStart) {
 			// Slow path: use DFA
 			fwdCache := s.fwdCachePool.Get().(*lazy.DFACache)
 			end := s.forwardDFA.SearchAtAnchored(fwdCache, haystack, lineStart)
@@ -243,12 +242,12 @@ func (s *MultilineReverseSuffixSearcher) FindAt(haystack []byte, at int) *Match 
 			if end >= 0 {
 				return NewMatch(lineStart, end, haystack)
 			}
-			// Move past this suffix candidate
-			pos = suffixPos + 1
 		}
 
-		if pos >= len(haystack) {
-			return nil
+		// No match on this line (see Find) - skip to next line
+		pos = nextLineStart(haystack, suffixPos)
+		if pos == -1 {
+			return nil // No more lines
 		}
 	}
 }
@@ -291,24 +290,17 @@ func (s *MultilineReverseSuffixSearcher) findIndicesAtImpl(haystack []byte, at i
 		}
 
 		// Fast path: a prefix miss rejects the whole line; a hit is verified by the DFA
-		if len(s.prefixBytes) > 0 && !s.verifyPrefix(haystack, lineStart) {
-			// Prefix doesn't match - skip to next line
-			nextLine := bytes.IndexByte(haystack[suffixPos:], '\n')
-			if nextLine == -1 {
-				return -1, -1, false
-			}
-			pos = suffixPos + nextLine + 1
-		} else {
+		if len(s.prefixBytes) == 0 || s.verifyPrefix(haystack, lineStart) {
 			// Slow path: use DFA
 			endPos := s.forwardDFA.SearchAtAnchored(fwdCache, haystack, lineStart)
 			if endPos >= 0 {
 				return lineStart, endPos, true
 			}
-			// Move past this suffix candidate
-			pos = suffixPos + 1
 		}
 
-		if pos >= len(haystack) {
+		// No match on this line (see Find) - skip to next line
+		pos = nextLineStart(haystack, suffixPos)
+		if pos == -1 {
 			return -1, -1, false
 		}
 	}
@@ -324,7 +316,8 @@ func (s *MultilineReverseSuffixSearcher) findIndicesAtImpl(haystack []byte, at i
 //   - No Match object allocation
 //
 // Performance: O(n) with very low constant factor for fast path.
-// Key optimization: when prefix fails, skip entire line - avoids O(n²) worst case.
+// Key optimization: each line is verified at most once. When the prefix check or
+// the DFA rejects a line, skip the entire line - avoids O(n²) worst case.
 func (s *MultilineReverseSuffixSearcher) IsMatch(haystack []byte) bool {
 	if len(haystack) == 0 {
 		return false
@@ -343,14 +336,7 @@ func (s *MultilineReverseSuffixSearcher) IsMatch(haystack []byte) bool {
 		lineStart := findLineStart(haystack, suffixPos)
 
 		// Fast path: a prefix miss rejects the whole line; a hit is verified by the DFA
-		if len(s.prefixBytes) > 0 && !s.verifyPrefix(haystack, lineStart) {
-			// Prefix doesn't match - skip to next line
-			nextLine := bytes.IndexByte(haystack[suffixPos:], '\n')
-			if nextLine == -1 {
-				return false // No more lines
-			}
-			pos = suffixPos + nextLine + 1
-		} else {
+		if len(s.prefixBytes) == 0 || s.verifyPrefix(haystack, lineStart) {
 			// Slow path: use DFA
 			fwdCache := s.fwdCachePool.Get().(*lazy.DFACache)
 			matched := s.forwardDFA.SearchAtAnchored(fwdCache, haystack, lineStart) >= 0
@@ -358,12 +344,12 @@ func (s *MultilineReverseSuffixSearcher) IsMatch(haystack []byte) bool {
 			if matched {
 				return true
 			}
-			// Move past this suffix candidate
-			pos = suffixPos + 1
 		}
 
-		if pos >= len(haystack) {
-			return false
+		// No match on this line (see Find) - skip to next line
+		pos = nextLineStart(haystack, suffixPos)
+		if pos == -1 {
+			return false // No more lines
 		}
 	}
 }
